@@ -42,7 +42,7 @@ T_Reset ==
     /\ Is("Reset")
     /\ vcfg' = E.cfg /\ vfiles' = E.files
     /\ vmd5' = <<>>
-    /\ vsig' = IF "slo" \in DOMAIN E THEN <<E.slo, E.shi>> ELSE <<0, 0>>
+    /\ vsig' = IF "slo" \in DOMAIN E THEN <<E.begin, E.end, E.slo, E.shi>> ELSE <<0, 0, 0, 0>>
 
 T_Intact ==
     /\ Is("Intact") /\ UNCHANGED <<vcfg, vfiles, vsig>>
@@ -55,6 +55,7 @@ T_Intact ==
     /\ IF vcfg.ver = 4 /\ Len(E.md5) = 6 /\ ~(E.md5[4] /\ E.md5[5])
          THEN Bad("intact: v4 HET/BET digest invalid") ELSE TRUE
     /\ IF vcfg.signed /\ E.sig # "WeakValid" THEN Bad("intact: signature does not verify") ELSE TRUE
+    /\ IF Len(E.tblfail) > 0 THEN Bad("intact: a table failed to load") ELSE TRUE
 
 T_Regions == Is("Regions") /\ Keep
 
@@ -76,13 +77,13 @@ T_SigIntact ==
 \* the class of the flipped byte is decided here from the logged integers (not from the harness's label)
 T_SigFlip ==
     /\ Is("SigFlip") /\ Keep
-    /\ IF /\ (SigMustFail(E.off, vsig[1], vsig[2]) \/ SigMustFail(E.off_last, vsig[1], vsig[2]))
+    /\ IF /\ (SigMustFail(E.off, vsig[1], vsig[2], vsig[3], vsig[4]) \/ SigMustFail(E.off_last, vsig[1], vsig[2], vsig[3], vsig[4]))
           /\ E.res = "valid"
          THEN Bad("signature still verifies after a bit flip") ELSE TRUE
-    /\ IF SigClass(E.off, vsig[1], vsig[2]) # SigClass(E.off_last, vsig[1], vsig[2])
+    /\ IF SigClass(E.off, vsig[1], vsig[2], vsig[3], vsig[4]) # SigClass(E.off_last, vsig[1], vsig[2], vsig[3], vsig[4])
          THEN Drift("folded SigFlip run crosses a class boundary") ELSE TRUE
 
-TInit == tl = 1 /\ vcfg = [ver |-> 0] /\ vfiles = <<>> /\ vmd5 = <<>> /\ vsig = <<0, 0>>
+TInit == tl = 1 /\ vcfg = [ver |-> 0] /\ vfiles = <<>> /\ vmd5 = <<>> /\ vsig = <<0, 0, 0, 0>>
 TNext == /\ tl <= Len(Rec) /\ tl' = tl + 1
          /\ \/ T_Reset \/ T_Intact \/ T_Regions \/ T_BuildFailed \/ T_Corrupt \/ T_SigIntact \/ T_SigFlip
 
